@@ -148,9 +148,9 @@ fn node(path: &[&str], fns: &[&str], imports: &[&str], subs: Vec<Tree>) -> Tree 
 }
 
 /// planted corner cases of the resolution rules: (class, tree, caller path, called name)
-fn corner(k: usize) -> Option<(&'static str, Tree, Vec<String>, String)> {
+fn corner(k: usize) -> Option<(&'static str, Tree, Vec<String>, String, Option<bool>)> {
     let p = |v: &[&str]| v.iter().map(|s| s.to_string()).collect::<Vec<String>>();
-    Some(match k {
+    let (class, tree, caller, name) = match k {
         // an import made of `super` segments only: its last segment is the imported NAME, not a step
         0 => ("corner.super_only_import_fn", node(&[], &["f"], &[], vec![node(&["a"], &[], &["super.super"], vec![])]), p(&["a"]), "super".into()),
         1 => (
@@ -204,10 +204,24 @@ fn corner(k: usize) -> Option<(&'static str, Tree, Vec<String>, String)> {
             p(&["a"]),
             "util.f".into(),
         ),
-        // a call of `main` (only with C08_CALL_MAIN set: the observation is a finding, see findings)
-        9 if std::env::var("C08_CALL_MAIN").is_ok() => ("corner.call_main", node(&[], &["f"], &[], vec![]), p(&[]), "main".into()),
+        // N-C08-3: a static call / function value of the entry function `main` (it has no label)
+        9 | 10 => ("corner.call_main", node(&[], &["f"], &[], vec![]), p(&[]), "main".into()),
+        11 | 12 => ("corner.call_main", node(&[], &["f"], &[], vec![node(&["a"], &["g"], &[], vec![])]), p(&["a"]), "main".into()),
+        13 => (
+            "corner.call_main",
+            node(&[], &[], &[], vec![node(&["a"], &[], &[], vec![node(&["a", "b"], &["f"], &["super.super.main"], vec![])])]),
+            p(&["a", "b"]),
+            "main".into(),
+        ),
         _ => return None,
-    })
+    };
+    // cases 10, 12: Function value + DynamicCall; 9, 11, 13: static Call
+    let by_value = match k {
+        9 | 11 | 13 => Some(false),
+        10 | 12 => Some(true),
+        _ => None,
+    };
+    Some((class, tree, caller, name, by_value))
 }
 
 fn int(i: i64) -> Card {
@@ -345,7 +359,9 @@ pub fn gen(a: &Args) {
             }
         };
         let is_planted = planted.is_some();
-        if let Some((class, t, c, n)) = planted {
+        let mut force_by_value = None;
+        if let Some((class, t, c, n, bv)) = planted {
+            force_by_value = bv;
             w.count(class);
             w.count("corner.planted");
             tree = t;
@@ -358,7 +374,7 @@ pub fn gen(a: &Args) {
         }
         let nargs = arity_of(&name);
         let args: Vec<Card> = (0..nargs).map(|j| int(100 + j as i64)).collect();
-        let by_value = rng.chance(1, 3);
+        let by_value = { let r = rng.chance(1, 3); force_by_value.unwrap_or(r) };
         let call: Card = if by_value {
             w.count("site.function_value");
             CardBody::DynamicCall(Box::new(DynamicJump { args: args.into(), function: Card::function_value(name.clone()) })).into()
@@ -462,16 +478,20 @@ pub fn gen(a: &Args) {
                                 read(&vm, &p, "keep_after")
                             )
                         }
-                        Err(e) => {
-                            if std::env::var("C08_CALL_MAIN").is_ok() {
-                                eprintln!("C08 case {}: run error: {:?}", idx + 1, e.payload);
-                            }
-                            "RRunErr".to_string()
-                        }
+                        Err(e) => match e.payload {
+                            cao_lang::procedures::ExecutionErrorPayload::ProcedureNotFound(h) => format!("(RNoProc {})", out::n(h.value() as u64)),
+                            _ => "RRunErr".to_string(),
+                        },
                     }
                 }));
                 let robs = run.unwrap_or_else(|_| "RRunErr".to_string());
-                w.count(if robs == "RRunErr" { "obs.run_error" } else { "obs.ran" });
+                w.count(if robs == "RRunErr" {
+                    "obs.run_error"
+                } else if robs.starts_with("(RNoProc") {
+                    "obs.procedure_not_found"
+                } else {
+                    "obs.ran"
+                });
                 (cobs, robs)
             }
         };
